@@ -283,6 +283,11 @@ def run(tier):
     t2 = monitors.run_models(rep, [m for m in ms if m.name.startswith("many-wake-ups")], 4 if tier == "thorough" else 3, time_cap=300 if tier == "thorough" else 40)
     for k in tot:
         tot[k] = max(tot[k], t2[k]) if k == "max_depth" else tot[k] + t2[k]
+    # the table invariant over SCTP (listen / accept / connectx / close are separate branches of the node)
+    t3 = monitors.run_models(rep, monitors.sctp_copies(ms, ("inbound-up-to-3-connections", "hard-write-failures", "outbound-persistent-start-ok",
+                                                            "outbound-persistent-start-refused", "outbound-persistent-start-inprogress")),
+                             depth - 1, time_cap=600 if tier == "thorough" else 40)
+    monitors.merge_tot(tot, t3)
     # the same with 12 and with 700 answers to write (a wake-up pipe drained in reads of any fixed size must not lose the request of the
     # connection that has to be closed): fixed histories, both scheduling policies
     nflood = 0
